@@ -175,11 +175,11 @@ pub fn exec(plan: &TwinPlan) -> RunOut {
             }
         }
         out.bump("probe.lockstep_op");
-        if !out.violations.is_empty() {
+        if crate::report::should_stop(&out) {
             break 'ops;
         }
     }
-    if out.violations.is_empty() {
+    if !crate::report::should_stop(&out) {
         // end: every world passes its full walk, and the walks agree
         let mut finals: Vec<(String, Vec<String>)> = Vec::new();
         for (label, w, _) in worlds.iter_mut() {
@@ -369,13 +369,13 @@ pub fn exec_iso(plan: &IsoPlan) -> RunOut {
                 }
             }
         }
-        if !out.violations.is_empty() {
+        if crate::report::should_stop(&out) {
             break;
         }
     }
     let full_digest = full.digest.0;
     out.add("probe.foreign_id_quoted", foreign_quotes);
-    if out.violations.is_empty() {
+    if !crate::report::should_stop(&out) {
         drop(full);
         for ci in 0..plan.n_clients {
             // same client ids, same clock timeline, only this client's requests; ids the server
